@@ -108,6 +108,14 @@ func makePayload(class string, n int, seed int64) []byte {
 				i++
 			}
 		}
+	case "randtext":
+		// 64 KiB of incompressible bytes (a stored chunk), then text (a range-coded chunk)
+		k := 65536
+		if k > n {
+			k = n
+		}
+		rng.Read(b[:k])
+		copy(b[k:], makePayload("text", n-k, seed+1))
 	case "chain", "chaincarry":
 		st := steer(b, rng, class == "chaincarry")
 		lastSteer = st
